@@ -57,12 +57,14 @@ static void run(const Script& s) {
         } else if (t[0] == "seg" && dt) {
             uint32_t seq = (uint32_t)num(t[1]);
             bytes b = unhex(t[2]);
+            // optional 4th token: further TCP flags the segment carries (FIN = 1, PSH = 8 ...): seen by Flow and TCPStream only
+            small_uint<12>::repr_type extra = t.size() > 3 ? (small_uint<12>::repr_type)(num(t[3]) & 0xfff) : 0;
             bool r = dt->process_payload(seq, b);
             printf("%s\n", show(r, *dt).c_str());
             {
                 IP ip = IP(srv, cli) / TCP(80, 1234) / RawPDU(b.begin(), b.end());
                 ip.rfind_pdu<TCP>().seq(seq);
-                ip.rfind_pdu<TCP>().flags(TCP::ACK);
+                ip.rfind_pdu<TCP>().flags(TCP::ACK | extra);
                 flow_data = false;
                 flow->process_packet(ip);
                 printf("F %s\n", show(flow_data, *flow).c_str());
@@ -70,7 +72,7 @@ static void run(const Script& s) {
             {
                 IP ip = IP(srv, cli) / TCP(80, 1234) / RawPDU(b.begin(), b.end());
                 ip.rfind_pdu<TCP>().seq(seq);
-                ip.rfind_pdu<TCP>().flags(TCP::ACK);
+                ip.rfind_pdu<TCP>().flags(TCP::ACK | (extra & ~(small_uint<12>::repr_type)(TCP::FIN | TCP::RST)));
                 legacy->update(&ip, &ip.rfind_pdu<TCP>());
                 printf("L %s\n", hex(legacy->client_payload()).c_str());
             }
